@@ -558,6 +558,16 @@ class C05(Profile):
                     return obj.add_signal(codec.dec(lit["raw"]))
                 return obj.add_signal(getattr(eqsig, lit["cls"])(codec.dec(lit["values"]), lit["dt"]))
             kw = {a: self._res(world, b) for a, b in op.get("kw", {}).items()}
+            if op.get("ood"):
+                # (as for "reset": a sized argument that is not a record; if the library accepts it the caller restores at once)
+                old = np.array(obj.values)
+                getattr(obj, name)(*[self._res(world, a) for a in op.get("a", [])], **kw)
+                try:
+                    obj.reset_values(old)
+                except MemoryError:
+                    obj.reset_values(old)
+                world.origin[op["p"]] = ("literal", "reset_values", None)
+                return None
             r = getattr(obj, name)(*[self._res(world, a) for a in op.get("a", [])], **kw)
             if name == "reset_values":
                 world.origin[op["p"]] = ("literal", "reset_values", None)
